@@ -70,6 +70,10 @@ EXPLANATION += (
     ' Round 9: a string with a path interpolated into it is only ever a raised or logged message (R-ROLE/path-in-message/message-only).'
 )
 
+EXPLANATION += (
+    ' Round 10: the .name of an open file object is judged as the path it was opened with.'
+)
+
 RULE_TEXT = (
     "one obligation per emitted value (config, log, log file, module), "
     "per removed key, per path interpolation site")
